@@ -265,7 +265,10 @@ class _RecKex(FakeKex):
         return True
 
 
-def segmentation(c1: int, d: int, r1: bool, r2: bool, onebyte: bool) -> bool:
+BM = [(8, 0), (16, 12), (16, 8), (8, 4), (16, 32)]
+
+
+def segmentation(c1: int, d: int, r1: bool, r2: bool, onebyte: bool, bm: int = 0) -> bool:
     """Receive path under any segmentation: a stream of four packets (IGNORE,
     KEXINIT - handled asynchronously, a kex message, IGNORE) delivered whole,
     cut at any two positions (with or without the loop running in between), or
@@ -278,6 +281,7 @@ def segmentation(c1: int, d: int, r1: bool, r2: bool, onebyte: bool) -> bool:
         C.get_kex = lambda conn, alg: _RecKex(log)
         conn, out = _rekey_conn(True, loop)
         conn._recv_encryption = conn._recv_encryption
+        conn._recv_blocksize, conn._recv_macsize = BM[bm]      # e.g. 16-byte blocks with a 12-byte MAC: the tail of a minimum-size packet is shorter than a block
         conn._kexinit_sent = True
         got = []
         orig = conn._process_ignore
@@ -291,7 +295,7 @@ def segmentation(c1: int, d: int, r1: bool, r2: bool, onebyte: bool) -> bool:
         kexinit = Byte(20) + bytes(16) + NameList([b'k1']) + NameList([b'h1']) + NameList([b'e1']) * 2 + \
             NameList([b'm1']) * 2 + NameList([b'none']) * 2 + NameList([]) * 2 + Boolean(False) + UInt32(0)
         stream = pframe(conn, Byte(2) + String(b'one')) + pframe(conn, kexinit) + \
-            pframe(conn, Byte(30) + String(b'EEEE')) + pframe(conn, Byte(2) + String(b'two'))
+            pframe(conn, Byte(30) + String(b'EEEE')) + pframe(conn, Byte(2) + String(b''))
         n = len(stream)
         if onebyte:
             for i in range(n):
@@ -312,7 +316,7 @@ def segmentation(c1: int, d: int, r1: bool, r2: bool, onebyte: bool) -> bool:
         if out.closed or out.internal or loop.exceptions:
             return False
         seq = got + [x for x in log if isinstance(x, tuple)]
-        want_ignores = [('ignore', String(b'one')), ('ignore', String(b'two'))]
+        want_ignores = [('ignore', String(b'one')), ('ignore', String(b''))]
         want_kex = [('kexpkt', 30, String(b'EEEE'))]
         return got == want_ignores and [x for x in log if isinstance(x, tuple)] == want_kex and \
             log.count('kex-start') == 1 and conn._inpbuf == b'' and conn._recv_seq == 4
@@ -332,13 +336,13 @@ OBLIGATIONS = [
     Ob('key_derivation', key_derivation, sym=dict(keylen=R(0, 83), xi=R(0, 5)), shards=dict(hi=[0, 1, 2]), timeout=150,
        functions=[KX.Kex.compute_key],
        bounds='sha1/sha256/sha512, letters A-F, key length 0..3 digests+3 (capped at 83 bytes)'),
-    Ob('segmentation', segmentation, sym=dict(c1=R(0, 200), r1=B, r2=B),
-       shards=dict(onebyte=[False], d=[0, 5], r1=[True, False], r2=[True]),
-       thorough_shards=dict(onebyte=[False, True], d=[0, 1, 2, 3, 4, 5, 8, 9, 16, 17, 40, 100], r1=[True, False], r2=[True, False]),
+    Ob('segmentation', segmentation, sym=dict(c1=R(0, 260), r1=B, r2=B),
+       shards=dict(onebyte=[False], d=[0, 5], r1=[True, False], r2=[True], bm=[0, 1]),
+       thorough_shards=dict(onebyte=[False, True], d=[0, 1, 2, 3, 4, 5, 8, 9, 16, 17, 40, 100], r1=[True, False], r2=[True, False], bm=[0, 1, 2, 3, 4]),
        timeout=250, thorough_timeout=900,
        functions=[C.SSHConnection._recv_data, C.SSHConnection._recv_pkthdr, C.SSHConnection._recv_packet,
                   C.SSHConnection._finish_recv_packet, C.SSHConnection._process_kexinit],
-       bounds='4-packet stream (~190 bytes, one packet handled by an async handler) cut at any position c and at c+d (d in {0,5}; thorough 12 values of d), loop running or not between chunks; 1-byte chunks in thorough'),
+       bounds='4-packet stream (~190 bytes, one packet handled by an async handler, the last of minimum size) under (block size, MAC size) in {(8,0),(16,12)} (thorough 5 pairs), cut at any position c and at c+d (d in {0,5}; thorough 12 values of d), loop running or not between chunks; 1-byte chunks in thorough'),
 ]
 
 MANIFEST = dict(
